@@ -91,6 +91,11 @@ func (g *c08Gen) yield(file string, minIdx int, vars []string, depth int, inUses
 	var out []*mj.Node
 	if sig.usesContent || g.n(0, 4, "extraContent") == 0 {
 		n.HasCont = true
+		if inUsesContent && g.n(0, 4, "emptyContent") == 0 {
+			// a content section with nothing in it is still the content: not the enclosing block's
+			g.labels["explicitly-empty-content"] = true
+			return []*mj.Node{n}
+		}
 		cv := g.id("cv")
 		out = append(out, mj.Let(cv, mj.Str(cv+"-before")))
 		n.Content = []*mj.Node{mj.Text("<c:" + g.id("") + ">")}
